@@ -101,7 +101,10 @@ class Graph:
                    (not o['multi'] or o['agg']) for o in self.edge[u][v])
 
     def intercepted_strict(self, u, v):
-        return any(not o['conds'] and o['icpt'] for o in self.edge[u][v])
+        """Always consumed, but in an error-absorbing position (value
+        argument of IFERROR/IFNA, ISERROR, COUNT)."""
+        return any(not o['conds'] and (o['icpt'] or o['sw'])
+                   for o in self.edge[u][v])
 
     # ---- reachability
     def reach(self, u, pred=None):
